@@ -57,7 +57,8 @@ class Circle(Shape2D):
 
     @centroid.setter
     def centroid(self, value):
-        self._centroid = np.asarray(value)
+        # Copy so that the caller's array is neither stored nor aliased.
+        self._centroid = np.array(value)
 
     @property
     def radius(self):
